@@ -107,6 +107,32 @@ Theorem C03_let_statement_simulates : forall s toks,
     end.
 Proof. exact let_statement_simulates. Qed.
 
+(* the PRINT statement, any item list (expressions, `;`, `,`) in any legal
+   spelling: the reference appends one output record, the model pushes one
+   Print record with the same text behind any warnings; stores and cursor as
+   for the assignment; or both fail with the same error kind *)
+Theorem C03_print_statement_simulates : forall s toks items mitems ts rest i p after li st,
+  fst (cur_tokens s) = Ok toks -> enable_tracing s = false ->
+  skipn i toks = TPrint :: ts ++ rest ->
+  tr_items items = Some mitems -> IRenders rest mitems ts -> 1 + idepth mitems < max_nesting ->
+  same_store st s ->
+  exists fuel0, forall fuel, fuel0 <= fuel -> forall r o,
+    match exec (isize items) p (SPrint items) after li st with
+    | Next pc st' =>
+        pc = after /\
+        exists text, st' = add_out text st /\
+        exists s' ow r', evaluate_statement fuel 0 (at_idx s i r o) = (Ok tt, s')
+          /\ W s o ow
+          /\ s' = at_idx s (i + 1 + length ts) r' (ow ++ [OPrint text])
+          /\ same_store st' s'
+    | Fail er line st' =>
+        line = line_no p li /\ st' = st /\
+        exists ie l s', evaluate_statement fuel 0 (at_idx s i r o) = (Err ie l, s')
+          /\ rerr_of ie = er /\ same_store st s'
+    | Done _ | NoFuel => False
+    end.
+Proof. exact print_statement_simulates. Qed.
+
 (* the relation gives the expression theorem its hypothesis *)
 Theorem C03_same_store_reads : forall st s, same_store st s -> same_reads st s.
 Proof. exact same_store_reads. Qed.
@@ -152,3 +178,4 @@ Print Assumptions C03_expr_reference_is_fold.
 Print Assumptions C03_expr_model_is_reference.
 Print Assumptions C03_let_statement_simulates.
 Print Assumptions C03_same_store_reads.
+Print Assumptions C03_print_statement_simulates.
